@@ -78,6 +78,10 @@ class Probes:
             log.append(('H', key))
             return self.val(self.stepno, key)
 
+        def HE(key, ev):
+            log.append(('H', key))
+            return self.val(self.stepno, key + ('+' if ev is not None else '-'))
+
         def S(cid, *values):
             log.append(('S', cid) + tuple(values))
             return True
@@ -88,7 +92,7 @@ class Probes:
         def U():                # (a plain function, not a bound method: copying the context must not copy the probes)
             return self.U()
 
-        d = dict(E=E, X=X, A=A, G=G, K=K, T=T, H=H, W=W, S=S, U=U)
+        d = dict(E=E, X=X, A=A, G=G, K=K, T=T, H=H, HE=HE, W=W, S=S, U=U)
         d.update(extra)
         return d
 
